@@ -511,6 +511,9 @@ func check(id, tier string) int {
 		fmt.Printf("(%d more distinct violations; replay files written)\n", newViol-12)
 	}
 	exhaustive := !m.Capped && m.ItemsDone == m.Items
+	if b, ok := m.Extra["search_budget_hit"].(bool); ok && b {
+		exhaustive = false // the property's own state search stopped at its time/size budget
+	}
 	cov := map[string]any{
 		"states":                        m.States,
 		"transitions":                   m.Transitions,
